@@ -351,7 +351,12 @@ def random_op(rng, a):
         if r < 0.80 and a.lattice is not None:
             ch = rng.choice(["a", "b", "c", "gamma"])
             if ch == "gamma":
-                return ["latpar", {"gamma": round(rng.uniform(80, 100), 2)}]
+                import math
+                g = round(rng.uniform(80, 100), 2)
+                ca, cb, cg = (math.cos(math.radians(x)) for x in (a.lattice.alpha, a.lattice.beta, g))
+                if 1 + 2 * ca * cb * cg - ca * ca - cb * cb - cg * cg > 0.05:      # only cells that exist
+                    return ["latpar", {"gamma": g}]
+                ch = "a"
             return ["latpar", {ch: round(rng.uniform(2, 12), 3)}]
         if r < 0.88:
             return ["readU"]
